@@ -30,7 +30,7 @@ package extractor
 //@ func s3Legacy
 //@   attr safety C10
 //@   property C19
-//@   checks div idx slice assert
+//@   checks div idx slice assert extnil
 //@   requires reqURL != nil && parsedBase != nil
 //@   let page = result
 //@   modifies mapof(url.qtable())
@@ -52,7 +52,7 @@ package extractor
 //@   attr safety C10
 //@   replay c19_s3V2:objects-1x1
 //@   property C19
-//@   checks div idx slice assert
+//@   checks div idx slice assert extnil
 //@   mode paths
 //@   let page = result
 //@   requires reqURL != nil && parsedBase != nil
@@ -86,7 +86,7 @@ package extractor
 //@ func hasFileExtension
 //@   attr safety C10
 //@   property C19
-//@   checks div idx slice assert
+//@   checks div idx slice assert extnil
 //@   let s0 = s
 //@   modifies nothing
 //@   ensures [ext] forall(e, 0, len(s0)+1, cutEnd(s0, e) ==> (result ==> hasExtAt(s0, e))) // C19: URLs whose last path segment has a file extension
@@ -95,7 +95,7 @@ package extractor
 //@ func isLikelyJSON
 //@   attr safety C10
 //@   property C19
-//@   checks div idx slice assert
+//@   checks div idx slice assert extnil
 //@   modifies nothing
 //@   ensures [short] len(str) < 5 ==> !result
 //@   ensures [def] len(str) >= 5 ==> result == (((str[0] == '{' && str[len(str)-1] == '}') || (str[0] == '[' && str[len(str)-1] == ']')) && strings.Contains(str, "\"")) // C19: including JSON embedded in a string
@@ -128,7 +128,7 @@ package extractor
 //@ func GetURLsFromJSON
 //@   attr safety C10
 //@   property C19
-//@   checks div idx slice assert
+//@   checks div idx slice assert extnil
 //@   modifies elem::string
 //@   loop range invariant [frame] -1 <= rangeindex && rangeindex < len(links) && freshslice(assets) && freshslice(outlinks) && (arrof(assets) != 0 ==> !samearray(assets, links) && !samearray(assets, outlinks)) && (arrof(outlinks) != 0 ==> !samearray(outlinks, links))
 //@   loop range invariant [count] len(assets) + len(outlinks) == rangeindex + 1
@@ -144,7 +144,7 @@ package extractor
 // JSON: every raw asset / outlink becomes a new URL object, in two new lists.
 //@ func JSON
 //@   attr safety C10
-//@   checks idx slice div assert
+//@   checks idx slice div assert extnil
 //@   property C19
 //@   requires URL != nil
 //@   modifies models.URL::*!Hops!Redirects, elem::string
@@ -171,7 +171,7 @@ package extractor
 //@ func M3U8
 //@   attr safety C10
 //@   property C19
-//@   checks div idx slice assert
+//@   checks div idx slice assert extnil
 //@   modifies models.URL::*!Hops!Redirects
 //@   loop range invariant [segments] -1 <= rangeindex && freshslice(rawAssets) && forall(i, 0, rangeindex+1, mediapl.Segments[i] != nil && mediapl.Segments[i].URI != "" ==> inList(rawAssets, mediapl.Segments[i].URI))
 //@   loop range#2 let vi = rangeindex
@@ -188,7 +188,7 @@ package extractor
 //@ func XML
 //@   attr safety C10
 //@   property C19
-//@   checks div idx slice assert
+//@   checks div idx slice assert extnil
 //@   modifies models.URL::*!Hops!Redirects
 //@   loop for invariant [nothing-yet] len(assets) == 0 && len(outlinks) == 0 && freshslice(rawURLs)
 //@   loop range invariant [bounds] -1 <= rangeindex && len(assets) == 0 && len(outlinks) == 0 && freshslice(rawURLs)
